@@ -49,8 +49,9 @@ pub fn pick_size(ch: &mut dyn Chooser) -> usize {
             8 => 1024 + ch.choose(64),
             9 => 4096 + ch.choose(1000),
             10 => 2048,
-            // beyond the 64 KiB cap of original_capacity_repr (rare: these buffers are compared after every op)
-            11 if ch.choose(8) == 0 => 66_000 + ch.choose(70_000),
+            // beyond the 64 KiB cap of original_capacity_repr (rare: these buffers are compared after every op;
+            // not under Miri, where one such history costs many minutes)
+            11 if !cfg!(miri) && ch.choose(8) == 0 => 66_000 + ch.choose(70_000),
             _ => ch.choose(41),
         }
     }
@@ -240,8 +241,35 @@ pub fn construct(d: &mut Driver, ch: &mut dyn Chooser, which: usize) {
 
 fn from_owner(d: &mut Driver, ch: &mut dyn Chooser, id: u32) {
     let len = pick_size(ch).min(3000);
-    let kind = ch.choose(5);
+    let kind = ch.choose(6);
     let stats = Arc::new(OwnerStats::default());
+    if kind == 5 {
+        // bytes stored inside an over-aligned owner: they live inside the crate's own owner box
+        let len = len.min(192);
+        let m = gen_bytes(id, len);
+        let mut bytes = [0u8; 192];
+        bytes[..len].copy_from_slice(&m);
+        let owner = InlineOwner { bytes, len, stats: stats.clone() };
+        d.log(format!("from_owner kind=5 (inline, align 64) len={len}"));
+        d.count("owners_created");
+        let r = crate::util::catch(move || Bytes::from_owner(owner));
+        match r {
+            Ok(bts) => {
+                let lo = bts.as_ptr() as usize;
+                {
+                    let _p = mem::pause();
+                    d.owners.push(OwnerRec { id, stats, lo, hi: lo + len });
+                }
+                if len > 0 && lo % 64 != 0 {
+                    d.viol("C02", "owner-misaligned", &format!("an align(64) owner was placed at {lo:#x}"));
+                }
+                d.cell("ctor|from_owner|kind5".to_string());
+                d.add(Val::B(bts), m, Origin::Owner(id));
+            }
+            Err(msg) => d.viol("C01", "unexpected-panic-from_owner", &msg),
+        }
+        return;
+    }
     let (data, full): (OwnerData, Vec<u8>) = if kind == 1 {
         let off = ch.choose(32);
         (OwnerData::Stat(&STATIC_DATA[off..off + len]), STATIC_DATA[off..off + len].to_vec())
